@@ -54,7 +54,8 @@ MODELLED = [
     "word-exact incl. every debug_assert/overflow/index panic site (Ymq/Model/FInt.lean)",
     "arith_fft::MultiZmodP::{new (tables without roots of unity), from_mint, _crt (three quotient-estimate branches, column loop, "
     "carry assert), redc} (Ymq/Model/Crt.lean)",
-    "arith_fft::MultiZmodP::{root tables of new (omegas, the 2^logsize powers, packed forward/backward levels), addsub_inplace, "
+    "arith_fft::MultiZmodP::{root tables of new (omegas, the 2^logsize powers, packed forward/backward levels, the debug_assert sanity "
+    "check of the roots), addsub_inplace, "
     "muladdsub_inplace, mul, div_pow2, ntt_inplace (recursive, bit-reversed input)} and convolve_modn_ntt (from_mint scattered to "
     "bit-reversed positions, two forward transforms, pointwise product, swap loop, inverse transform, redc) on vectors of w-residue "
     "elements with the C07 word models of mg_mul/mg_redc and checked u64 butterflies (Ymq/Model/Ntt.lean)",
